@@ -32,7 +32,7 @@ NOT_DECIDED = ["equality of coordinates within the format's precision (numerical
                "value ranges against field widths (overflow)", "gro time regex vs the %s spelling of floats"]
 ASSUMPTIONS = ["in_units_of(q, a, b) converts from a to b and is the only unit conversion used at the file boundary",
                "the format specifications fix: xtc/trr/gro/h5/lh5 nm; dcd/netcdf/rst7/ncrst/mdcrd/xyz/lammpstrj(real)/pdb/dtr/arc angstrom"]
-FLOORS = {"C01-R9": 7, "C01-R8": 54, "C01-R1": 50, "C01-R2": 60, "C01-R3": 20, "C01-R4": 9, "C01-R5": 25, "C01-R6": 8, "C01-R7": 6}
+FLOORS = {"C01-R9": 9, "C01-R8": 54, "C01-R1": 50, "C01-R2": 60, "C01-R3": 20, "C01-R4": 9, "C01-R5": 25, "C01-R6": 8, "C01-R7": 6}
 
 TRAJ = "mdtraj/core/trajectory.py"
 WRITABLE = [".h5", ".xtc", ".trr", ".dcd", ".nc", ".netcdf", ".ncdf", ".mdcrd", ".crd", ".xyz", ".xyz.gz", ".lammpstrj", ".gro",
@@ -916,17 +916,17 @@ def r9_end_to_end(ctx):
     from ..tensym import Raised, Ten
     from ..pysym import Unsupported as PUnsupported
     NF = 2
-    for key in ("xyz", "mdcrd", "lammpstrj", "gro"):
+    for key in ("xyz", "mdcrd", "lammpstrj", "gro", "pdb"):
         rel, cls = F.rel_cls(key)
         saver = ctx.py.func(E.TRAJ, "Trajectory.save_" + key)
         q = "Trajectory.save_%s / load_%s" % (key, key)
         for have_cell in (True, False):
             if key == "lammpstrj" and not have_cell:
                 continue        # the LAMMPS writer requires a cell
-            desc = "save then load (%s): coordinates in nm%s come back" % ("with a cell" if have_cell else "no cell", {"gro": ", cell vectors, time", "xyz": ""}.get(key, ", cell") if have_cell else (", time" if key == "gro" else ""))
+            desc = "save then load (%s): coordinates in nm%s come back" % ("with a cell" if have_cell else "no cell", {"gro": ", cell vectors, time", "xyz": "", "pdb": ", the cell of the first frame"}.get(key, ", cell") if have_cell else (", time" if key == "gro" else ""))
             try:
-                world = W.World(NF, cell=True, ortho=True, time=True)
-                pieces, t = E.save_and_load(ctx, key, world, have_cell=have_cell)
+                world = W.World(NF, cell=True, ortho=True, time=True) if key != "pdb" else E.PdbWorld(NF)
+                pieces, t = E.save_and_load(ctx, key, world, have_cell=have_cell, load_kwargs={"no_boxchk": True} if key == "pdb" else None)
             except Raised as e:
                 ctx.violated("C01-R9", saver, E.TRAJ, q, desc, "refused: %s" % (e.exc or e))
                 continue
@@ -943,6 +943,16 @@ def r9_end_to_end(ctx):
                     why.append("cell lengths come back as %s" % (repr(L.data[0])[:80] if isinstance(L, Ten) and L.data else L))
                 if not (isinstance(A, Ten) and all(T.same_value(a_, b_) for a_, b_ in zip(A.data, world.A.data))):
                     why.append("cell angles come back as %s" % (repr(A.data[:3])[:60] if isinstance(A, Ten) else A))
+            if key == "pdb":
+                L, A = t.__dict__.get("unitcell_lengths"), t.__dict__.get("unitcell_angles")
+                if have_cell:
+                    # one CRYST1 record: the cell of the first frame, for every model
+                    okL = isinstance(L, Ten) and L.shape == (NF, 3) and all(T.same_value(L.data[f_ * 3 + k_], world.L.data[k_]) for f_ in range(NF) for k_ in range(3))
+                    okA = isinstance(A, Ten) and A.shape == (NF, 3) and all(T.same_value(A.data[f_ * 3 + k_], world.A.data[k_]) for f_ in range(NF) for k_ in range(3))
+                    if not (okL and okA):
+                        why.append("the cell of the first frame (the one CRYST1 record) comes back as %s / %s" % (repr(L.data[:3])[:70] if isinstance(L, Ten) else L, repr(A.data[:3])[:50] if isinstance(A, Ten) else A))
+                elif L is not None or A is not None:
+                    why.append("a cell is loaded from a file saved without one")
             if not have_cell and key in ("mdcrd", "xyz"):
                 if t.__dict__.get("unitcell_lengths") is not None or t.__dict__.get("unitcell_vectors") is not None:
                     why.append("a cell is loaded from a file saved without one")
